@@ -226,7 +226,7 @@ func c05Level2(c *explore.Ctx, base *explore.Base, rec *explore.Recovered, memo 
 // independent replay and the contents after a crash right after Compact must all equal the model.
 func c05Sequential(c *explore.Ctx) {
 	depth := 2
-	bases := []string{"HO", "CH", "CC", "SP", "LCS", "FL"}
+	bases := []string{"HO", "CH", "CC", "SP", "LCS", "FL", "RU"}
 	if c.Thorough() {
 		depth = 3
 		bases = append(bases, "LCM", "ML")
